@@ -1065,15 +1065,16 @@ theorem seq_decode_reply (I : SeqInst) (ops : List SeqFOp) (x : List Rat) :
   exact (seq_step_refines hc (.decode x)).1
 
 /-- **connection to the instance-level arc decoder** (`ArcInst.decode` / `ArcInst.decodeAsserts`, `VrpModel/ArcBased.lean`,
-    the functions the route theorems are about): on a reachable object, when at least one index is selected and every
-    selected index is a variable index of the CURRENT problem, `decode x` returns `ArcInst.decode` of the current
-    problem data if the assertions of `get_routes` hold and raises `AssertionError` otherwise -/
+    the functions the route theorems are about): on a reachable object, when every selected index is a variable index
+    of the CURRENT problem, `decode x` returns `ArcInst.decode` of the current problem data if the assertions of
+    `get_routes` hold and raises `AssertionError` otherwise.  The empty selection is included (no hypothesis
+    `selectedIdx x ≠ []`): then `ArcInst.decode x = []` and the visit assertion alone decides. -/
 theorem arc_decode_inst (I : ArcInst) (ops : List ArcFOp) (x : List Rat) :
     let o := ((ArcObj.init I).run ops).1
-    selectedIdx x ≠ [] → (∀ k ∈ selectedIdx x, k < o.inst.vars.length) →
+    (∀ k ∈ selectedIdx x, k < o.inst.vars.length) →
     (o.step (.decode x)).2 = if o.inst.decodeAsserts x then .routesA (o.inst.decode x) else .raised .assert := by
-  intro o hne hr
-  rw [arc_decode_reply I ops x, ArcInst.getRoutes_eq_decode o.inst x hne hr]
+  intro o hr
+  rw [arc_decode_reply I ops x, ArcInst.getRoutes_eq_decode o.inst x hr]
   cases o.inst.decodeAsserts x with
   | true => rfl
   | false => rfl
@@ -1088,19 +1089,36 @@ theorem seq_decode_inst (I : SeqInst) (ops : List SeqFOp) (x : List Rat) :
   intro o hne hr
   rw [seq_decode_reply I ops x, SeqInst.getRoutes_eq_decode o.inst x hne hr]
 
-/-- nothing selected: the sequence object returns `[]` and the arc object raises, in both cases BEFORE any lookup — the
-    object (flags and caches included) is exactly as it was -/
+/-- nothing selected: no lookup happens in either formulation — the object (flags and caches included) is exactly as it
+    was.  The sequence object returns `[]`; the arc object has no route and its final visit assertion decides: `[]` when
+    the problem has no customer, `AssertionError` otherwise (`arcAssertsTuples_nil`). -/
 theorem decode_nothing_selected (x : List Rat) (hx : selectedIdx x = []) (oa : ArcObj) (os : SeqObj) :
-    oa.step (.decode x) = (oa, .raised .type) ∧ os.step (.decode x) = (os, .routesS []) := by
-  have ha : oa.getRoutes x = (oa, .error .type) := by unfold ArcObj.getRoutes; simp [hx]
+    oa.step (.decode x) = (oa, if arcAssertsTuples oa.inst.g [] then .routesA [] else .raised .assert) ∧
+    os.step (.decode x) = (os, .routesS []) := by
+  have ha : oa.getRoutes x = (oa, if arcAssertsTuples oa.inst.g [] then .ok [] else .error .assert) := by
+    unfold ArcObj.getRoutes; simp [hx]
   have hs : os.getRoutes x = (os, .ok []) := by unfold SeqObj.getRoutes; simp [hx]
   constructor
   · show ((oa.getRoutes x).1, (match (oa.getRoutes x).2 with
         | .ok rs => ArcReply.routesA rs | .error e => ArcReply.raised e)) = _
     rw [ha]
+    cases arcAssertsTuples oa.inst.g [] with
+    | true => rfl
+    | false => rfl
   · show ((os.getRoutes x).1, (match (os.getRoutes x).2 with
         | .ok rs => SeqReply.routesS rs | .error e => SeqReply.raised e)) = _
     rw [hs]
+
+/-- the visit assertion on the empty selection holds exactly when the problem has no customer -/
+theorem arcAssertsTuples_nil (g : Graph) : arcAssertsTuples g [] = decide (g.nodes.length ≤ 1) := by
+  unfold arcAssertsTuples
+  cases h : g.nodes.length - 1 with
+  | zero =>
+    have : g.nodes.length ≤ 1 := by omega
+    simp [this]
+  | succ n =>
+    have : ¬ g.nodes.length ≤ 1 := by omega
+    simp [this, List.range_succ_eq_map]
 
 /-- something selected: afterwards `variables_enumerated` is set (also when the decoding raises) -/
 theorem decode_enumerates (x : List Rat) (hx : selectedIdx x ≠ []) (oa : ArcObj) (os : SeqObj) :
@@ -1194,16 +1212,36 @@ def exArcD : ArcInst :=
            arcs := [((0, 1), ⟨"D", "A", 1, 1⟩), ((1, 0), ⟨"A", "D", 1, 1⟩)] },
     T := [0, 1, 2] }
 
-/-- arc object, decoding as the FIRST call; the empty selection raises before any lookup (flag still unset); an index
-    beyond the variables raises `TypeError` after the enumeration; two arrivals at `A` violate the visit assertion -/
+/-- arc object, decoding as the FIRST call; the empty selection makes no lookup (flag still unset) and, `A` being
+    unvisited, fails the visit assertion; an index beyond the variables raises `TypeError` after the enumeration; two
+    arrivals at `A` violate the visit assertion -/
 example :
     ((ArcObj.init exArcD).run [.decode [1, 0, 0, 0, 0, 1]]).2 = [.routesA [[(0, 0), (1, 1), (0, 2)]]] ∧
     ((ArcObj.init exArcD).run [.decode [1, 0, 0, 0, 0, 1]]).1.variablesEnumerated = true ∧
-    ((ArcObj.init exArcD).run [.decode [0, 0]]).2 = [.raised .type] ∧
+    ((ArcObj.init exArcD).run [.decode [0, 0]]).2 = [.raised .assert] ∧
     ((ArcObj.init exArcD).run [.decode [0, 0]]).1.variablesEnumerated = false ∧
     ((ArcObj.init exArcD).run [.decode [0, 0, 0, 0, 0, 0, 1]]).2 = [.raised .type] ∧
     ((ArcObj.init exArcD).run [.decode [0, 0, 0, 0, 0, 0, 1]]).1.variablesEnumerated = true ∧
     ((ArcObj.init exArcD).run [.decode [1, 1, 0, 0, 0, 1]]).2 = [.raised .assert] := by
+  decide +kernel
+
+/-- empty selection on a DEPOT-ONLY arc problem (`exInstE0`: one node, no arc): no route, the visit assertion is
+    vacuous — `get_routes` returns `[]`, nothing is enumerated; the specification agrees -/
+example :
+    ((ArcObj.init exInstE0).run [.decode []]).2 = [.routesA []] ∧
+    ((ArcObj.init exInstE0).run [.decode [0, 0]]).2 = [.routesA []] ∧
+    ((ArcObj.init exInstE0).run [.decode []]).1.variablesEnumerated = false ∧
+    (({ inst := exInstE0 } : ArcAbs).specRun [.decode []]).2 = [.routesA []] := by
+  decide +kernel
+
+/-- empty selection on an arc problem WITH a customer (`exArcD`): no route, customer `A` is not visited —
+    `AssertionError`, nothing is enumerated (also after a size query and a reconfiguration); the specification agrees -/
+example :
+    ((ArcObj.init exArcD).run [.decode []]).2 = [.raised .assert] ∧
+    ((ArcObj.init exArcD).run [.decode []]).1.variablesEnumerated = false ∧
+    ((ArcObj.init exArcD).run [.numVars, .addTimePoints [0, 1, 2, 3], .decode []]).2 = [.num 6, .done, .raised .assert] ∧
+    ((ArcObj.init exArcD).run [.numVars, .addTimePoints [0, 1, 2, 3], .decode []]).1.variablesEnumerated = false ∧
+    (({ inst := exArcD } : ArcAbs).specRun [.decode []]).2 = [.raised .assert] := by
   decide +kernel
 
 /-- arc object, decoding right after a reconfiguration that follows a size query: `add_time_points` unsets the flag,
